@@ -125,6 +125,16 @@ def _maybe_copy(o, how=None):
     return ("ok", c)
 
 
+def depth_band(fn, args=(), depths=range(500, 990, 15)):
+    """Outcomes of fn(*args) called from each of the given stack depths (those that ran out of stack are left out)."""
+    out = []
+    for d in depths:
+        o = at_depth(fn, args, depth=d)
+        if o[0] != "ran-out":
+            out.append((d, o))
+    return out
+
+
 class forced:
     """Context manager: every observe() inside applies the given host condition (used to reproduce / minimise a witness)."""
 
